@@ -189,6 +189,8 @@ def run(chk, facts_dir, tier):
         got = fps.get(fn)
         if got is None:
             raise Inconclusive("leaf parser parser.rs::%s not found" % fn)
+        if fn == "keyword" and got == want:
+            chk.ok("R21.6", "keyword(): whole-token comparison (%s)" % "+".join(sorted(got)), "crates/sierradb-server/src/parser.rs")
         if fn == "keyword" and got != want:
             # the accepted idioms of whole-token, case-insensitive equality; and the forms that are known to compare only a part of the token
             if got in KEYWORD_EQUAL_IDIOMS:
